@@ -358,4 +358,18 @@ def translate(ctx) -> List[str]:
         with open(tmp, "w", encoding="utf-8") as f:
             f.write(txt)
         os.replace(tmp, GEN_PATH)
-    return problems
+    return problems + translate_body_readers()
+
+
+def translate_body_readers() -> List[str]:
+    """which reader HTTPApiDecoder uses for a request body (Gen/SelectHttp.lean), and the selection tables of the readers
+    themselves (Gen/Select.lean) - the obligation c11_body_readers_strict is about both"""
+    from translate import select_tables as S
+    out: List[str] = []
+    for path, text, unrec in ((os.path.join(C.LEAN_DIR, "Basyx", "Gen", "SelectHttp.lean"),) + (lambda d: (S.emit_lean_http(d), d["unrecognised"]))(S.build_http(C.REPO)),
+                              (os.path.join(C.LEAN_DIR, "Basyx", "Gen", "Select.lean"),) + (lambda d: (S.emit_lean(d), d["unrecognised"]))(S.build(C.REPO))):
+        if not os.path.exists(path) or open(path, encoding="utf-8").read() != text:
+            with open(path, "w", encoding="utf-8") as f:
+                f.write(text)
+        out += [f"unrecognised source construct: {u}" for u in unrec]
+    return out
